@@ -436,11 +436,20 @@ Definition gen_sum (order : list (level * side)) (cfg_windows : list Z) (contain
                       (map (fun t => last_index t names) names) names
                       (fun name => map (fun t => (col (fst ls) t =? name)%N) tes) gd ov (length tes) a
     end) order (DRunning []).
+
+(* MergeData.sum as a whole: the three guards on the overlap data first (Gen/GenGuards.v, translated by py2gallina_guards.py;
+   a refusal is a ValueError = None), then the summations *)
+Definition gen_sum_checked (order : list (level * side)) (my_chromosome ov_chromosome : N) (cfg_windows : list Z) (container_names : list N)
+    (ov_names : list N) (ov_windows : list Z) (gd : N -> gene) (tes : list te) (ov : oarrays) : option dstate :=
+  if negb (gen_validate_chromosome (Some my_chromosome) (Some ov_chromosome)) then None
+  else if negb (gen_validate_windows (Some (gen_my_windows cfg_windows)) (Some ov_windows)) then None
+  else if negb (gen_validate_gene_names (Some (gen_my_gene_names container_names)) (Some ov_names)) then None
+  else Some (gen_sum order cfg_windows container_names ov_names ov_windows gd tes ov).
 """
 
 HEADER = """(* GENERATED by /verif/translator/py2gallina_merge.py from the current /repo sources. Do not edit. *)
 From Coq Require Import ZArith NArith List Bool.
-From TEV Require Import Model.Pipeline Model.OverlapArr Model.MergeArr Gen.Gen.
+From TEV Require Import Model.Pipeline Model.OverlapArr Model.MergeArr Model.Guards Gen.Gen Gen.GenGuards.
 Import ListNotations.
 """
 
